@@ -703,7 +703,8 @@ def rule_header_retry(facts):
 def run(ctx, t0):
     facts = ctx.facts()
     pat.FACTS = facts
-    rules = [rule_purity(facts), rule_constants(facts), rule_staging(facts), rule_refill(facts), rule_commit(facts), rule_carry(facts), rule_header_retry(facts)]
+    rules = [rule_purity(facts), rule_constants(facts), rule_staging(facts), rule_refill(facts), rule_commit(facts), rule_carry(facts), rule_header_retry(facts),
+             __import__('rules.C01', fromlist=['x']).rule_state_writers(facts, 'C05.R8')]
     expl = ("Static, structural clauses only: effect analysis of the update-flag family (every caller-visible store / mutable loan is "
             "control dependent on the flag or forwards it), capacity constants from the ADT definitions against the look-ahead tests, "
             "provenance terms of every slice of a staging array handed to a reader and of every fill-position update, finite evaluation "
